@@ -641,7 +641,177 @@ def _explore_chunk(ck: Check, drv: LeanDriver, r, n: int):
                             "runCases-vs-run_function_test")
 
 
+
+# --------------------------------------------------------------------------- the per-case mock API (Koreo/MockApi.lean)
+
+def gen_mock_value(r, depth=2):
+    k = r.randrange(8)
+    if depth <= 0 or k < 3:
+        return r.choice([0, 1, -3, True, False, None, "", "x", "y", 1.5, [], [1, "a"], {}])
+    if k < 6:
+        return {r.choice("abcd"): gen_mock_value(r, depth - 1) for _ in range(r.randrange(0, 4))}
+    return [gen_mock_value(r, depth - 1) for _ in range(r.randrange(0, 3))]
+
+
+def gen_mock_obj(r, allow_empty=True):
+    keys = ["apiVersion", "kind", "metadata", "spec", "status", "a", "b"]
+    n = r.randrange(0 if allow_empty else 1, 5)
+    o = {k: gen_mock_value(r) for k in r.sample(keys, n)}
+    # what a Kubernetes object always has: string apiVersion / kind, a metadata map
+    for k in ("apiVersion", "kind"):
+        if k in o:
+            o[k] = r.choice(["v1", "Thing", "g.example/v1"])
+    if "metadata" in o:
+        o["metadata"] = {k: gen_mock_value(r, 1) for k in r.sample(["name", "namespace", "labels", "uid"], r.randrange(0, 4))}
+    return o
+
+
+def gen_mock_conversation(r):
+    cur = r.choice([None, {}, "obj", "obj", "obj", "obj"])
+    if cur == "obj":
+        cur = gen_mock_obj(r, allow_empty=False)
+    calls = []
+    n = r.choice([0, 1, 1, 2, 2, 3, 4, 6])
+    for _ in range(n):
+        k = r.randrange(10)
+        if k < 4:
+            calls.append({"c": "get"})
+        elif k < 6:
+            calls.append({"c": "delete"})
+        else:
+            body = gen_mock_obj(r)
+            if cur and r.random() < 0.5:
+                # bodies that overlap the current resource, with map values on both sides
+                for key in r.sample(list(cur), min(len(cur), r.randrange(1, 3))):
+                    if key in ("apiVersion", "kind"):
+                        body[key] = cur[key]
+                    elif key == "metadata" or r.random() < 0.5:
+                        body[key] = {"n": gen_mock_value(r, 1)}
+                    else:
+                        body[key] = gen_mock_value(r)
+            calls.append({"c": "write", "body": body})
+    return cur, calls
+
+
+async def real_mock_conversation(cur, calls):
+    """the same conversation with the real `MockApi`, read back the way `_run_test_case` does"""
+    from koreo.function_test import run as ftrun
+
+    class Held:
+        def __init__(self, api=None, resource=None, namespace=None, **_):
+            self.raw = resource
+
+    api = ftrun.MockApi(current_resource=copy.deepcopy(cur))
+    answers = []
+    for c in calls:
+        if c["c"] == "get":
+            got = [o async for o in api.async_get(Held, "name", namespace="ns")]
+            answers.append(copy.deepcopy(got[0].raw) if got else None)
+        elif c["c"] == "delete":
+            async with api.call_api("DELETE", version="v1", url="things/name", namespace="ns") as resp:
+                answers.append(resp.json())
+        else:
+            verb = "PATCH" if cur else "POST"
+            async with api.call_api(verb, version="v1", url="things", namespace="ns",
+                                    data=json.dumps(c["body"])) as resp:
+                answers.append(copy.deepcopy(resp.json()))
+    handed = api.materialized if api._api_called else cur
+    return {"answers": answers, "materialized": copy.deepcopy(api.materialized), "apiCalled": bool(api._api_called),
+            "deleteCalled": bool(api._delete_called), "handed": copy.deepcopy(handed)}
+
+
+def opt_wire(v):
+    return None if v is None else {"some": to_wire(v)}
+
+
+def canon(v):
+    return json.dumps(v, sort_keys=False, default=str)
+
+
+def mock_model_view(ans):
+    def un(o):
+        return None if o is None else common.from_wire(o["some"])
+    return {"answers": [un(a) for a in ans["answers"]], "materialized": un(ans["materialized"]),
+            "apiCalled": ans["apiCalled"], "deleteCalled": ans["deleteCalled"], "handed": un(ans["handed"])}
+
+
+def mock_oracle(cur, calls, impl):
+    """what C18 needs of the mock, stated without the model: reads leave no trace, every GET answers the
+    case's own resource, a write names the keys it replaces and keeps the others, a DELETE hands on `{}`"""
+    muts = [c for c in calls if c["c"] != "get"]
+    if impl["apiCalled"] != bool(muts):
+        return f"_api_called is {impl['apiCalled']} after {len(muts)} mutating requests"
+    if impl["deleteCalled"] != any(c["c"] == "delete" for c in calls):
+        return "_delete_called does not say whether a DELETE was made"
+    for c, a in zip(calls, impl["answers"]):
+        if c["c"] == "get" and a != (cur if cur else None):
+            return f"a GET answered {a!r}, the case's resource is {cur!r}"
+    if not muts:
+        if impl["handed"] != cur:
+            return "a conversation without a mutating request changed what is handed to the next case"
+        return None
+    last = muts[-1]
+    if last["c"] == "delete":
+        if impl["handed"] != {}:
+            return f"after a DELETE the next case is handed {impl['handed']!r}, not {{}}"
+        return None
+    want = dict(cur or {})
+    want.update(last["body"])
+    if impl["handed"] != want:
+        return f"after a write the next case is handed {impl['handed']!r}; body over the case's resource is {want!r}"
+    return None
+
+
+def explore_mock(ck: Check, drv: LeanDriver, r, n: int):
+    convs = [gen_mock_conversation(r) for _ in range(n)]
+    reqs = [{"op": "mock", "cur": opt_wire(cur), "calls": [
+        {"c": c["c"], **({"body": to_wire(c["body"])} if c["c"] == "write" else {})} for c in calls]}
+        for cur, calls in convs]
+    answers = drv.ask(reqs)
+
+    async def all_real():
+        out = []
+        for cur, calls in convs:
+            try:
+                out.append(await real_mock_conversation(cur, calls))
+            except Infra:
+                raise
+            except Exception as e:
+                out.append(e)
+        return out
+
+    impls = ku.run(all_real())
+    for (cur, calls), ans, impl in zip(convs, answers, impls):
+        ck.evaluated()
+        ck.count("mock:conversation")
+        ck.count(f"mock:calls:{len(calls)}")
+        for c in calls:
+            ck.count(f"mock:{c['c']}")
+        case = {"type": "mock", "cur": cur, "calls": calls}
+        if isinstance(impl, Exception):
+            ck.disagree(case, None, repr(impl), "mock-conversation-raised")
+            continue
+        if sum(1 for c in calls if c["c"] != "get") >= 1 and cur:
+            ck.nontriv(canon([cur, calls]))
+        bad = mock_oracle(cur, calls, impl)
+        if bad:
+            ck.violate(case, bad)
+        if "error" in ans:
+            ck.disagree(case, ans, impl, "driver-error")
+            continue
+        mine = mock_model_view(ans)
+        if canon(mine) != canon(impl):
+            ck.disagree(case, mine, impl, "Mock.run-vs-MockApi")
+
+
 def check_case(case: dict):
+    if case.get("type") == "mock":
+        try:
+            return mock_oracle(case["cur"], case["calls"], ku.run(real_mock_conversation(case["cur"], case["calls"])))
+        except Infra:
+            raise
+        except Exception as e:
+            return f"the mock API raised {e!r}"
     if case.get("type") != "family":
         return None
     a = case["cases"]
@@ -681,7 +851,9 @@ def run(tier: str) -> int:
         "src/koreo/function_test/run.py and cel/functions.py `_deep_overlay`",
         "harness/c18.py + harness/gen_ft.py: sibling FunctionTests through the real prepare/run; observation of what "
         "each case hands to reconcile_value_function / reconcile_resource_function (wrappers installed by the harness)",
-        "the Function under test and its mock API are an oracle in the model (a table of what the runs showed); the "
+        "model lean/Koreo/MockApi.lean (`Mock.step`, `mergeTop`, `handedOn`) hand-transcribed from `MockApi` / "
+        "`_merge_overlay`; tied by conversations (GET / write / DELETE sequences) run against the real MockApi",
+        "the Function under test (its reconcile over that mock) is an oracle in the model (a table of what the runs showed); the "
         "driver's `applyOv` mirrors `_overlay_applier` for literal overlays with `=inputs.<key>` leaves",
     ]
     ck.assumptions = [
@@ -694,11 +866,13 @@ def run(tier: str) -> int:
     replay_corpus(ck)
     n = 170 if tier == "quick" else 3000
     explore(ck, drv, rng("c18"), n)
+    explore_mock(ck, drv, rng("c18-mock"), 600 if tier == "quick" else 20000)
     if tier == "thorough":
         ck.leanchecker()
 
     def widen(ck2: Check):
         explore(ck2, drv, rng("c18-wide"), 600)
+        explore_mock(ck2, drv, rng("c18-mock-wide"), 5000)
 
     return ck.finish(
         widen=widen,
